@@ -687,7 +687,7 @@ func runC19(tier string, seed int64, outdir string, replay string) error {
 		}
 	}
 	// ---- (b) job manager histories
-	nJobs := 150
+	nJobs := 300
 	if tier == "thorough" {
 		nJobs = 3000
 	}
